@@ -658,9 +658,41 @@ class Summarizer:
             if k == 'closure':
                 return ('closure', None, None, ())
             return ('call', 'zst:%s' % ty.get('s'), ())
+        if 'item' in c:
+            v = self.eval_const_item(c['item'])
+            if v is not None:
+                return v
         if 'uneval' in c or 'item' in c:
             return ('call', 'const:%s' % (c.get('item') or c.get('uneval')), ())
         return ('unknown', 'const %s' % ty.get('s'))
+
+    def eval_const_item(self, path):
+        """value of a local constant whose initialiser is straight-line MIR (struct / enum literals, arithmetic on
+        literals): run the initialiser body; anything else (calls, several paths) -> None (kept opaque)"""
+        cid = self.facts.const_body_ids.get(norm_path(path))
+        if cid is None:
+            return None
+        cache = self.__dict__.setdefault('_const_cache', {})
+        if cid in cache:
+            return cache[cid]
+        cache[cid] = None
+        try:
+            st = State()
+            insts = [{'def': cid, 'idx': 0, 'callmap': {}, 'closuremap': {}, 'fnitemmap': {}, 'calls': [], 'allcalls': []}]
+            self.push_frame(st, insts, 0, None, None)
+            cur = st
+            for _ in range(400):
+                if cur.done is not None:
+                    break
+                nxt = self.step(cur)
+                if len(nxt) != 1:
+                    return None
+                cur = nxt[0]
+            if cur.done is not None and cur.done[0] == 'ret':
+                cache[cid] = self.resolve_deep(cur, cur.done[1])
+        except (Unsupported, Infeasible, KeyError, IndexError, TypeError):
+            return None
+        return cache[cid]
 
     def eval_operand(self, st, fr, o):
         if 'copy' in o:
